@@ -1320,7 +1320,7 @@ impl fmt::Display for Type2<'_> {
       Type2::IntValue { value, .. } => write!(f, "{}", value),
       Type2::UintValue { value, .. } => write!(f, "{}", value),
       Type2::FloatValue { value, .. } => crate::token::fmt_float(f, *value),
-      Type2::TextValue { value, .. } => write!(f, "\"{}\"", value),
+      Type2::TextValue { value, .. } => crate::token::fmt_text(f, value),
       Type2::UTF8ByteString { value, .. } => write!(
         f,
         "'{}'",
